@@ -1757,3 +1757,37 @@ def check_blank_sets(ctx, rule, key, floor=1, ignore=None):
                   % (sorted(repr(c) for c in acc)[:8], (", not %s" % missing) if missing else ""), b.span_of(bb) if b else "", nontrivial=(n <= 2))
     ctx.floor(rule, key, "blank tests tabulated", n, floor)
 
+
+# ---------------------------------------------------------------- rule verdicts shared between properties
+
+_SHARE_CACHE = {}
+
+
+def share_rules(ctx, prop, rules, as_rule, item, floor, exclude=()):
+    """Evaluate another property's rule module on the same facts and add the verdicts of the named rules to this check as instances of
+    `as_rule` (instance = '<rule>:<instance>').  Used where one property's statement includes a clause that another property's rules decide
+    (the writer prints a digest name the reader must parse back; best_match ranks by the order the tokeniser and dewey_cmp define ...).
+    A module that cannot be evaluated, or fewer than `floor` shared instances, is a violation (fail closed)."""
+    import importlib
+    from check import Ctx, Record
+    ck = (id(ctx.fx), prop, ctx.tier)
+    if ck not in _SHARE_CACHE:
+        mod = importlib.import_module("rules." + prop.lower())
+        sub = Ctx(prop, ctx.tier, ctx.fx)
+        sub.inline_set = ctx.inline_set
+        sub.desugar = bool(getattr(mod, "DESUGAR", False))
+        try:
+            mod.run(sub)
+            _SHARE_CACHE[ck] = list(sub.records)
+        except Exception:
+            _SHARE_CACHE[ck] = None
+    recs = _SHARE_CACHE[ck]
+    shared = None if recs is None else [r for r in recs if any(r.rule == x or r.rule.startswith(x + "#") for x in rules) and not r.instance.startswith("floor:")
+                                        and not any(x in r.key for x in exclude)]
+    if not shared:
+        ctx.violation(as_rule, item, "shared-rules", "the %s rules %s could not be evaluated on this tree" % (prop, list(rules)), "")
+    else:
+        for r in shared:
+            ctx.records.append(Record(as_rule, r.item, "%s:%s" % (r.rule, r.instance), r.verdict, r.detail, r.span, False))
+    ctx.floor(as_rule, item, "shared %s rule instances" % prop, len(shared or []), floor)
+
